@@ -2,6 +2,7 @@ package web
 
 import (
 	"net/http"
+	"net/url"
 	"strings"
 
 	"github.com/gorilla/mux"
@@ -45,7 +46,7 @@ func headerMatch(req *http.Request, name string, value string) bool {
 
 // NewContext returns a Context for the given HTTP Request
 func NewContext(req *http.Request) (*Context, error) {
-	vars := mux.Vars(req)
+	vars := unescapeVars(mux.Vars(req))
 	ctx := &Context{
 		Vars:       vars,
 		MsgHub:     msgHub,
@@ -55,4 +56,17 @@ func NewContext(req *http.Request) (*Context, error) {
 		IsJSON:     headerMatch(req, "Accept", "application/json"),
 	}
 	return ctx, nil
+}
+
+// unescapeVars undoes the path escaping of route variables, which Router
+// leaves as they were sent.
+func unescapeVars(encoded map[string]string) map[string]string {
+	vars := make(map[string]string, len(encoded))
+	for k, v := range encoded {
+		if u, err := url.PathUnescape(v); err == nil {
+			v = u
+		}
+		vars[k] = v
+	}
+	return vars
 }
